@@ -88,6 +88,10 @@ pub enum Base {
     OrRight,
     /// `Tee<Summarize<Normalize<Basic>>, Normalize<Libtest>>`
     Tee,
+    /// `Normalize<Tee<Summarize<Basic>, discard::Stats<Basic>>>`: the right side counts nothing
+    TeeZeroRight,
+    /// `Normalize<Tee<discard::Stats<Basic>, Summarize<Basic>>>`: the left side counts nothing
+    TeeZeroLeft,
 }
 
 #[derive(Clone, Copy, Debug, PartialEq, Eq)]
@@ -114,7 +118,15 @@ impl Stack {
     }
     pub fn all() -> Vec<Stack> {
         let mut v = Vec::new();
-        for base in [Base::SumBasic, Base::Libtest, Base::OrLeft, Base::OrRight, Base::Tee] {
+        for base in [
+            Base::SumBasic,
+            Base::Libtest,
+            Base::OrLeft,
+            Base::OrRight,
+            Base::Tee,
+            Base::TeeZeroRight,
+            Base::TeeZeroLeft,
+        ] {
             for wrap in [
                 Wrap::None,
                 Wrap::FailOnSkipped,
@@ -286,6 +298,26 @@ pub fn subject(cfg: &Config, stack: Stack) -> Box<dyn Subject> {
             writer::Tee::new(sum_basic(&bbuf), norm_libtest(&lbuf)),
             cli::Compose { left: basic_cli(), right: libtest_cli() }
         ),
+        Base::TeeZeroRight => wrap_and_drive!(
+            cfg,
+            stack,
+            writer::Tee::new(
+                writer::Basic::raw(bbuf.clone(), Coloring::Never, 0).summarized(),
+                writer::Basic::raw(lbuf.clone(), Coloring::Never, 0).discard_stats_writes()
+            )
+            .normalized::<TW>(),
+            cli::Compose { left: basic_cli(), right: basic_cli() }
+        ),
+        Base::TeeZeroLeft => wrap_and_drive!(
+            cfg,
+            stack,
+            writer::Tee::new(
+                writer::Basic::raw(lbuf.clone(), Coloring::Never, 0).discard_stats_writes(),
+                writer::Basic::raw(bbuf.clone(), Coloring::Never, 0).summarized()
+            )
+            .normalized::<TW>(),
+            cli::Compose { left: basic_cli(), right: basic_cli() }
+        ),
     };
     Box::new(FutureSubject(fut))
 }
@@ -352,10 +384,25 @@ fn libtest_suite_verdict(out: &str) -> Option<bool> {
 
 pub fn check(cfg: &Config, stack: Stack, tr: &Trace, res: &PipeResult) -> Vec<Violation> {
     let mut out = Vec::new();
-    if !tr.ended {
+    // a panic escaping `run()` kills the test binary: that is a run reported failed
+    let escaped = tr.anomalies.iter().find_map(|a| match a {
+        crate::exec::Anomaly::EscapedPanic(p) => Some(p.clone()),
+        _ => None,
+    });
+    if !tr.ended && escaped.is_none() {
         return out;
     }
     let (want, why) = expected_verdict(cfg, tr, stack.fail_on_skipped());
+    if let Some(p) = &escaped {
+        if !want {
+            out.push(Violation {
+                prop: "C01",
+                key: "pipeline-panicked".into(),
+                msg: format!("stack {stack:?}: the pipeline panicked ({p}) but {why}"),
+            });
+        }
+        return out;
+    }
     match res.failed {
         None => out.push(Violation {
             prop: "C01",
